@@ -1,5 +1,5 @@
 #!/usr/bin/env python3
-"""bin/g4tla.py <JavaParser.g4> <JavaLexer.g4> <out.tla> [module-name]
+"""bin/g4tla.py <XParser.g4> <XLexer.g4> <out.tla> [module-name] [--as-token rule=CLASS ...]
 
 Translates the ANTLR4 parser grammar the tool ships into a TLA+ constant module: every rule becomes a
 sequence of alternatives, every alternative a sequence of symbols [k, v]:
@@ -8,7 +8,11 @@ sequence of alternatives, every alternative a sequence of symbols [k, v]:
    k = "K"  v = the token class name (IDENTIFIER, DECIMAL_LITERAL, STRING_LITERAL ...: the lexeme is chosen later)
 plus MinAlt (an alternative of minimal derivation height per rule, used once a derivation must be closed) and
 MinSize (the number of tokens of the smallest sentence of a rule). The module is regenerated from /repo's
-current grammar by every run of the C09 check, so the specification follows the grammar the tool ships.
+current grammar by every run of the C09 check (Java) and of the C20 `frontsderive` suite (Python, Go), so the
+specification follows the grammar the tool ships. Semantic predicates `{...}?` and actions are dropped (the
+derivation is then a superset of the language; the front-end's own parser decides which sentences are inside the
+quantifier); tokens declared in a `tokens { }` block (Python's INDENT / DEDENT / LINE_BREAK) have no lexer rule and
+come out as token classes the renderer interprets; `--as-token eos=EOS` does the same for a parser rule.
 """
 import re
 import sys
@@ -42,7 +46,12 @@ def tokenize(src):
         elif c == "{":  # action / options block
             depth, j = 1, i + 1
             while depth:
-                if src[j] == "{":
+                if src[j] in "\"'":  # a string / rune literal of the target language inside an action: braces in it do not count
+                    q = src[j]
+                    j += 1
+                    while src[j] != q:
+                        j += 2 if src[j] == "\\" else 1
+                elif src[j] == "{":
                     depth += 1
                 elif src[j] == "}":
                     depth -= 1
@@ -215,8 +224,16 @@ def tla_str(s):
 
 
 def main():
-    parser_g4, lexer_g4, out = sys.argv[1:4]
-    module = sys.argv[4] if len(sys.argv) > 4 else "JavaGrammar"
+    args, as_token = [], {}
+    it = iter(sys.argv[1:])
+    for a in it:
+        if a == "--as-token":      # --as-token rule=CLASS : every reference to this parser rule becomes the token class CLASS
+            r, _, c = next(it).partition("=")   # (a rule the renderer interprets, e.g. Go's `eos` = ';' or a line break)
+            as_token[r] = c
+        else:
+            args.append(a)
+    parser_g4, lexer_g4, out = args[0:3]
+    module = args[3] if len(args) > 3 else "JavaGrammar"
     lex = G4(tokenize(open(lexer_g4, encoding="utf-8").read())).parse()
     literal = {}
     for name, alts in lex.rules.items():
@@ -225,11 +242,18 @@ def main():
     g = G4(tokenize(open(parser_g4, encoding="utf-8").read())).parse()
     rules = {}
     for name in g.order:
+        if name.split("__")[0] in as_token:
+            continue
         alts = []
         for a in g.rules[name]:
+            if a == [("TOK", "EOF")] and len(g.rules[name]) > 1:
+                continue  # `(LINE_BREAK | EOF)`: the EOF alternative can only be taken at the very end of a file; the
+                #           renderer realises it there by leaving out the last line break, the derivation never takes it
             syms = []
             for k, v in a:
-                if k == "TOK":
+                if k == "N" and v in as_token:
+                    syms.append(("K", as_token[v]))
+                elif k == "TOK":
                     if v == "EOF":
                         continue
                     syms.append(("T", literal[v]) if v in literal else ("K", v))
